@@ -69,7 +69,15 @@ Unit ==
         /\ prev' = u.kind
   /\ UNCHANGED <<fresh, sess>> /\ l' = l + 1
 
-TraceNext == Session \/ Fresh \/ Unit
+\* SentFresh (Wire): a message that carries a timestamp is stamped when it is sent, however long its session object
+\* had existed before (one second of slack for a second boundary between the write and the reading of the clock)
+Stamp ==
+  /\ l <= Len(Rec) /\ Rec[l].ev = "Stamp"
+  \* VMess blurs the time in its authentication token by up to 30 s on purpose (as v2ray does); that is the protocol's
+  /\ LET slack == IF Rec[l].what = "vmess-auth" THEN 31 ELSE 1 IN Rec[l].dts \in (0 - slack)..slack
+  /\ UNCHANGED <<used, fresh, ctr, prev, sess>> /\ l' = l + 1
+
+TraceNext == Session \/ Fresh \/ Unit \/ Stamp
 TraceSpec == TraceInit /\ [][TraceNext]_tvars
 
 TraceAccepted ==
